@@ -7,6 +7,7 @@ import TxdbusModel.Proofs.Net.Introspected
 import TxdbusModel.Proofs.Net.BytesSim
 import TxdbusModel.Proofs.Net.BytesProgress
 import TxdbusModel.Proofs.Net.GetProxy
+import TxdbusModel.Proofs.Net.BytesHandshake
 import TxdbusModel.Net.OldBus
 /-!
 # C11 - a call through a proxy reaches the remote method and returns what it returned
@@ -575,6 +576,62 @@ theorem C11_bytes_completion_always_reachable_partial {α : Type} (C : WireCodec
   obtain ⟨fuel, hq⟩ := bytes_quiescence_reachable C Ok hC A a0 w n first bsteps fire hok
   exact ⟨_, hq, C11_bytes_any_delivery_order_partial C Ok hC A a0 w n first _ (hok fuel) hq⟩
 
+/-! ## 3e'. the handshake before binary mode -/
+
+/-- **Runs that begin before the end of the handshake.**  `BNet.initH`: every receiver - the bus's protocol instance
+for each connection, each client's own - is still in LINE mode, and each wire starts with the remaining authentication
+lines (`Spec.unlines (lines ++ [last])`, accepted by the receiving authenticator: `HandshakeOK`); message bytes queue up
+behind them.  For every byte-level run from there in which the first read on a link takes at least these lines (`HSRun`:
+so the final handshake line and message bytes may come in ONE read - the hand-off of `dataReceived`, C04 `handoff`;
+afterwards reads are arbitrary): there is a run of the same length from `BNet.init` - the state after the handshake -
+that ends in the same state up to `HRel`: same clients, same `dropped` and `sent` logs, the same wire and buffer on
+every link that has been read, the handshake still in front of the wire on the others.  So every theorem about runs
+from `BNet.init` holds for these runs (next theorem).  C04's theorems are used for the single hand-off read
+(Proofs/Net/BytesHandshake.lean `handoff_one_read`). -/
+theorem bytes_run_from_handshake_reduces {α : Type} (C : WireCodec V) (A : Txdbus.Proto.Auth α) (a0 : α) (w : World V)
+    (n : Nat) (first : Nat → Nat) (hsUp hsDown : Nat → Txdbus.Proto.Bytes)
+    (hup : ∀ c, ∃ lines last, hsUp c = Txdbus.Proto.Spec.unlines (lines ++ [last]) ∧ HandshakeOK A a0 lines last)
+    (hdown : ∀ c, ∃ lines last, hsDown c = Txdbus.Proto.Spec.unlines (lines ++ [last]) ∧ HandshakeOK A a0 lines last)
+    (bsteps : List (BStep V)) (hrun : HSRun C A w hsUp hsDown (BNet.initH n first a0 hsUp hsDown) bsteps) :
+    ∃ bsteps', bsteps'.length = bsteps.length ∧
+      HRel A hsUp hsDown (brun C A w (BNet.initH n first a0 hsUp hsDown) bsteps)
+        (brun C A w (BNet.init n first a0) bsteps') :=
+  handshake_run_reduces C A w bsteps (hrel_init A n first a0 hsUp hsDown hup hdown) hrun
+
+/-- **C11 at byte level, from before the end of the handshake** (PARTIAL like `C11_bytes_any_delivery_order_partial`,
+item (2) of whose list this closes up to the restriction `HSRun` on the FIRST read of each link and up to `Hello` /
+messages to the bus itself).  A run from `BNet.initH` that ends quiescent (so every link has been read: a wire that
+still starts with a handshake is not empty): a message-level schedule exists with the same client logs, quiescent, in
+which every call issued to an attached client is `Completed`. -/
+theorem C11_bytes_from_handshake_partial {α : Type} (C : WireCodec V) (Ok : Msg V → Prop) (hC : C.Laws Ok)
+    (A : Txdbus.Proto.Auth α) (a0 : α) (w : World V) (n : Nat) (first : Nat → Nat)
+    (hsUp hsDown : Nat → Txdbus.Proto.Bytes)
+    (hup : ∀ c, ∃ lines last, hsUp c = Txdbus.Proto.Spec.unlines (lines ++ [last]) ∧ HandshakeOK A a0 lines last)
+    (hdown : ∀ c, ∃ lines last, hsDown c = Txdbus.Proto.Spec.unlines (lines ++ [last]) ∧ HandshakeOK A a0 lines last)
+    (bsteps : List (BStep V)) (hrun : HSRun C A w hsUp hsDown (BNet.initH n first a0 hsUp hsDown) bsteps)
+    (hok : ∀ m, m ∈ (brun C A w (BNet.initH n first a0 hsUp hsDown) bsteps).sent → Ok m)
+    (hq : (brun C A w (BNet.initH n first a0 hsUp hsDown) bsteps).Quiescent) :
+    ∃ msteps,
+      (run w (Net.init n first) msteps).Quiescent ∧
+      (∀ c, ((brun C A w (BNet.initH n first a0 hsUp hsDown) bsteps).cl c).issued =
+              ((run w (Net.init n first) msteps).cl c).issued ∧
+            ((brun C A w (BNet.initH n first a0 hsUp hsDown) bsteps).cl c).completions =
+              ((run w (Net.init n first) msteps).cl c).completions ∧
+            ((brun C A w (BNet.initH n first a0 hsUp hsDown) bsteps).cl c).invocations =
+              ((run w (Net.init n first) msteps).cl c).invocations ∧
+            ((brun C A w (BNet.initH n first a0 hsUp hsDown) bsteps).cl c).answers =
+              ((run w (Net.init n first) msteps).cl c).answers) ∧
+      ∀ a, a < n → ∀ r, r ∈ ((brun C A w (BNet.initH n first a0 hsUp hsDown) bsteps).cl a).issued → r.dest < n →
+        ∃ o ans, Completed w (run w (Net.init n first) msteps) a r o ans := by
+  obtain ⟨bsteps', _, hr⟩ := bytes_run_from_handshake_reduces C A a0 w n first hsUp hsDown hup hdown bsteps hrun
+  have hok' : ∀ m, m ∈ (brun C A w (BNet.init n first a0) bsteps').sent → Ok m := by
+    intro m hm; rw [← hr.sent] at hm; exact hok m hm
+  obtain ⟨msteps, h1, h2, h3⟩ :=
+    C11_bytes_any_delivery_order_partial C Ok hC A a0 w n first bsteps' hok' (hr.quiescent hq)
+  refine ⟨msteps, h1, ?_, ?_⟩
+  · intro c; rw [hr.cl]; exact h2 c
+  · intro a ha r hr'; rw [hr.cl] at hr'; exact h3 a ha r hr'
+
 /-! ## 3f. obtaining the proxy: the `interfaces=` argument of `getRemoteObject` -/
 
 /-- **Introspection iff some requested NAME is unknown.**  `getRemoteObject` (Net/GetProxy.lean: the walk over the
@@ -1025,6 +1082,54 @@ example : (∀ fuel m, m ∈ (brun exCodec2 exAuth exWorld (BNet.init 3 (fun _ =
     rw [this] at h3
     exact absurd h3 (by decide)
 
+/-! ### the handshake hypotheses are satisfiable -/
+
+def lnAUTH : Txdbus.Proto.Bytes := [65, 85, 84, 72]
+def lnBEGIN : Txdbus.Proto.Bytes := [66, 69, 71, 73, 78]
+def lnOK : Txdbus.Proto.Bytes := [79, 75]
+/-- an authenticator that reports success at `BEGIN` (bus side) and at `OK` (client side) -/
+def exAuthH : Txdbus.Proto.Auth Unit :=
+  ⟨fun a l => if l = lnBEGIN ∨ l = lnOK then (a, .success) else (a, .cont)⟩
+def exHsUp : Nat → Txdbus.Proto.Bytes := fun _ => Txdbus.Proto.Spec.unlines ([lnAUTH] ++ [lnBEGIN])
+def exHsDown : Nat → Txdbus.Proto.Bytes := fun _ => Txdbus.Proto.Spec.unlines ([] ++ [lnOK])
+
+/-- client 0 writes two calls behind its `AUTH` / `BEGIN` lines; the bus's first read takes the 13 handshake bytes, the
+first frame and 5 bytes of the second in ONE read; client 2's first read takes `OK` and both forwarded calls; the
+links of client 1 are read too (they carry only the handshake) -/
+def exStepsH : List (BStep Nat) :=
+  [.call 0 (.viaProxy exProxy none "echo" [7]), .call 0 (.viaProxy exProxy none "echo" [9]),
+   .readBus 0 34, .readBus 0 1000, .readClient 2 1000 [.now (.value (.obj 8)), .now (.value (.obj 10))],
+   .readBus 2 17, .readBus 2 1000, .readClient 0 1000 [], .readBus 1 13, .readClient 1 4 []]
+
+def exBH : BNet Nat Unit :=
+  brun exCodec2 exAuthH exWorld (BNet.initH 3 (fun _ => 1) () exHsUp exHsDown) exStepsH
+
+/-- every hypothesis of `C11_bytes_from_handshake_partial` holds for this run: the handshakes are acceptable, the first
+read of every link takes its handshake (`HSRun`), everything serialised is in the codec's domain, the run ends
+quiescent; both calls completed with what was returned -/
+example : (∀ c, ∃ lines last, exHsUp c = Txdbus.Proto.Spec.unlines (lines ++ [last]) ∧ HandshakeOK exAuthH () lines last) ∧
+    (∀ c, ∃ lines last, exHsDown c = Txdbus.Proto.Spec.unlines (lines ++ [last]) ∧ HandshakeOK exAuthH () lines last) ∧
+    HSRun exCodec2 exAuthH exWorld exHsUp exHsDown (BNet.initH 3 (fun _ => 1) () exHsUp exHsDown) exStepsH ∧
+    (∀ m, m ∈ exBH.sent → m ∈ exDomain) ∧ exBH.Quiescent ∧
+    (exBH.cl 0).completions = [(1, .single 8), (2, .single 10)] := by
+  have hlen : ∀ l ∈ [lnAUTH] ++ [lnBEGIN], Txdbus.Proto.Spec.hasCRLF l = false ∧
+      l.length ≤ Txdbus.Gen.ProtoConst.maxAuthLength := by decide
+  have hlen2 : ∀ l ∈ ([] : List Txdbus.Proto.Bytes) ++ [lnOK], Txdbus.Proto.Spec.hasCRLF l = false ∧
+      l.length ≤ Txdbus.Gen.ProtoConst.maxAuthLength := by decide
+  refine ⟨fun _ => ⟨[lnAUTH], lnBEGIN, rfl, hlen, (), (), by decide, by decide⟩,
+    fun _ => ⟨[], lnOK, rfl, hlen2, (), (), by decide, by decide⟩, by decide +kernel, ?_, ?_, ?_⟩
+  · have h1 : exBH.sent = [exC1, exC2, exC1.withSender 0, exC2.withSender 0, exR1, exR2, exR1.withSender 2,
+        exR2.withSender 2] := by decide +kernel
+    intro m hm
+    rw [h1] at hm
+    revert m
+    decide
+  · have h : exBH.n = 3 ∧ ∀ j, j < 3 → exBH.upWire j = [] ∧ exBH.downWire j = [] ∧ (exBH.busRx j).buffer = [] ∧
+        (exBH.cliRx j).buffer = [] ∧ (exBH.cl j).exec = [] := by decide +kernel
+    intro j hj
+    exact h.2 j (by rw [h.1] at hj; exact hj)
+  · decide +kernel
+
 /-- The model of the bus BEFORE the repair (Net/OldBus.lean), with a re-encoding that raises for the body
 of a `v` call (the implementation: argument `(1, 2**40)`, sent as `(ix)`, re-inferred as `ai`): the call
 of client 0 is issued to an attached client, the network becomes quiescent, and the call is neither
@@ -1063,6 +1168,8 @@ end Txdbus.Net
 #print axioms Txdbus.Net.bytes_quiescence_reachable
 #print axioms Txdbus.Net.bytes_quiescence_reachable_in_class
 #print axioms Txdbus.Net.C11_bytes_completion_always_reachable_partial
+#print axioms Txdbus.Net.bytes_run_from_handshake_reduces
+#print axioms Txdbus.Net.C11_bytes_from_handshake_partial
 #print axioms Txdbus.Net.getRemoteObject_introspects_iff_unknown_name
 #print axioms Txdbus.Net.getRemoteObject_built_lists_every_requested
 #print axioms Txdbus.Net.getRemoteObject_built_agrees
